@@ -57,6 +57,11 @@ def shapes(tier, seed):
     for nb, no, nt in itertools.product(box, box, tbox):
         for cart in (False, True):
             out.append({"n_b": nb, "n_o": no, "n_t": nt, "cartesian": cart, "alg_b": "", "alg_o": ""})
+    # one-point grids spelled by name instead of by number (what the command line tools pass for "only origin"): parser-accepted, so covered
+    for bn, on in (("zero", "zero"), ("zero4D", "zero3D"), ("zero", "3"), ("2", "zero3D"), ("zero_1", "1_zero")):
+        for nt in (1, 2):
+            for cart in (False, True):
+                out.append({"n_b": 1 if "zero" in bn else int(bn), "n_o": 1 if "zero" in on else int(on), "n_t": nt, "cartesian": cart, "alg_b": "", "alg_o": "", "names": [bn, on]})
     if tier == "thorough":
         for nb, no in itertools.product(box, box):
             for ab, ao in (("randomQ_", "randomS_"), ("cube4D_", "cube3D_")):
@@ -184,7 +189,8 @@ def run_shape(shape):
                 pass
             for hname, hist in HISTORIES.items():
                 try:
-                    fg = F.FullGrid(f"{shape['alg_b']}{n_b}", f"{shape['alg_o']}{n_o}", _t_string(n_t), position_grid_cartesian=cart)
+                    bname, oname = shape.get("names") or (f"{shape['alg_b']}{n_b}", f"{shape['alg_o']}{n_o}")
+                    fg = F.FullGrid(bname, oname, _t_string(n_t), position_grid_cartesian=cart)
                 except Exception as e:  # noqa: BLE001
                     return {"__init__": e}
                 # radii stay the concrete parsed numbers here (C02/C05 cover symbolic radii): with symbolic radii the truthiness of
@@ -254,7 +260,8 @@ def replay(cex):
                         pass
             except Exception:  # noqa: BLE001
                 pass
-            fg = FullGrid(f"{s['alg_b']}{s['n_b']}", f"{s['alg_o']}{s['n_o']}", _t_string(s["n_t"]), position_grid_cartesian=s["cartesian"])
+            bname, oname = s.get("names") or (f"{s['alg_b']}{s['n_b']}", f"{s['alg_o']}{s['n_o']}")
+            fg = FullGrid(bname, oname, _t_string(s["n_t"]), position_grid_cartesian=s["cartesian"])
             for h in hist:                 # same history as the symbolic run
                 try:
                     getattr(fg, h)()
